@@ -24,9 +24,12 @@ var c16Files = map[string]string{
 	"/d/index.html": "TOKEN-d-index",
 	"/d/g.txt":      "TOKEN-d-g",
 	"/e/x.txt":      "TOKEN-e-x",
+	// the same name, size and modification time as /d/g.txt, other content
+	"/e/g.txt": "TOKEN-e-g",
 }
 var c16Dirs = []string{"/", "/d", "/e", "/h", "/h/index.html", "/st"}
-var c16Outside = map[string]string{"secret.txt": "TOKEN-OUTSIDE-secret", "pubx": "TOKEN-OUTSIDE-pubx"}
+// (f.txt outside has the name, size and modification time of /f.txt inside)
+var c16Outside = map[string]string{"secret.txt": "TOKEN-OUTSIDE-secret", "pubx": "TOKEN-OUTSIDE-pubx", "f.txt": "TOKEN-O"}
 
 func c16Fixture() (root string, cleanup func()) {
 	root = filepath.Join(core.VerifDir, ".work", "c16", fmt.Sprint(os.Getpid()))
@@ -48,6 +51,7 @@ func c16Fixture() (root string, cleanup func()) {
 	}
 	for p, c := range c16Outside {
 		must(os.WriteFile(filepath.Join(root, p), []byte(c), 0o644))
+		must(os.Chtimes(filepath.Join(root, p), mt, mt))
 	}
 	return root, func() { _ = os.RemoveAll(root) }
 }
@@ -319,7 +323,8 @@ func c16Run(r *core.Run) {
 	{
 		l := core.NewLocal()
 		c16Reuse(root, c16Paths(2), l)
-		l.States += 2
+		c16Twins(root, l)
+		l.States += 3
 		r.Merge(l)
 	}
 	var opts []c16Opts
@@ -403,6 +408,48 @@ func c16Run(r *core.Run) {
 	})
 }
 
+// c16Twins: files that agree in name, size and modification time and differ in content and place - in two
+// directories of one handler, and inside the directory of one handler and outside it (inside that of another
+// handler of the same application). Requests in sequence; every answer is the content of the file the
+// request names under the handler that answers.
+func c16Twins(root string, l *core.Local) (first string) {
+	f := flamego.NewWithLogger(io.Discard)
+	f.Use(flamego.Static(flamego.StaticOptions{Directory: root, Prefix: "all", SetETag: true}))
+	f.Use(flamego.Static(flamego.StaticOptions{Directory: filepath.Join(root, "pub"), SetETag: true}))
+	f.NotFound(func(c flamego.Context) { c.ResponseWriter().WriteHeader(299) })
+	seq := [][2]string{{"/all/f.txt", c16Outside["f.txt"]}, {"/f.txt", c16Files["/f.txt"]}, {"/all/f.txt", c16Outside["f.txt"]}, {"/all/pub/f.txt", c16Files["/f.txt"]},
+		{"/d/g.txt", c16Files["/d/g.txt"]}, {"/e/g.txt", c16Files["/e/g.txt"]}, {"/d/g.txt", c16Files["/d/g.txt"]}, {"/all/pub/e/g.txt", c16Files["/e/g.txt"]}, {"/f.txt", c16Files["/f.txt"]}}
+	for _, method := range []string{"GET", "HEAD", "GET"} {
+		for i, st := range seq {
+			l.Evals++
+			l.Transitions++
+			l.Traces++
+			l.NonTrivial++
+			spy := &c01Spy{hdr: http.Header{}}
+			var pan interface{}
+			func() {
+				defer func() { pan = recover() }()
+				f.ServeHTTP(spy, newReq(method, st[0]))
+			}()
+			want := st[1]
+			if method == "HEAD" {
+				want = ""
+			}
+			if pan != nil || spy.code != 200 || spy.body.String() != want {
+				bad := fmt.Sprintf("request %d of the sequence, %s %q: status %d body %q (panic %v), the file it names holds %q", i+1, method, st[0], spy.code, trunc(spy.body.String()), pan, st[1])
+				if first == "" {
+					first = bad
+				}
+				l.Class("mismatch")
+				l.Violate("content-of-another-file/"+method, bad, c16Case{Method: "twin-files", Path: fmt.Sprintf("%q", st[0])})
+			} else {
+				l.Class("twin-files:own-content")
+			}
+		}
+	}
+	return first
+}
+
 // c16Reuse: two Static handlers built one after the other from ONE options slice that the caller edits in
 // between (directory and prefix), next to twins built from two independent option values: every request
 // must be answered identically (a handler is configured by the values it was given when it was built).
@@ -464,6 +511,12 @@ func c16Replay(raw json.RawMessage) (bool, string) {
 	var c c16Case
 	if err := json.Unmarshal(raw, &c); err != nil {
 		return false, err.Error()
+	}
+	if c.Method == "twin-files" {
+		root, cleanup := c16Fixture()
+		defer cleanup()
+		bad := c16Twins(root, core.NewLocal())
+		return bad != "", bad
 	}
 	if c.Method == "options-reuse" {
 		root, cleanup := c16Fixture()
